@@ -1,4 +1,808 @@
-//! framing: not built yet.
-pub fn run(args: &vh_common::Args) {
-    vh_common::unknown(args)
+//! Framing (C26): `p2panda_net::codec::Codec` against spec/Framing.
+//!
+//! The specification talks about a byte stream as a sequence of tokens (one per byte) and about
+//! messages as (content id, postcard size).  Everything that is *bytes* is this file's part:
+//!
+//! * every abstract message `(c, n)` is realised by a real message value whose postcard encoding has
+//!   exactly `n` bytes ("families" below: real `TopicLogSyncMessage`, `LogSyncMessage`,
+//!   `TopicHandshakeMessage`, `String`, real signed operations, and a raw n-byte tuple type that
+//!   also reaches `n = 0`), so one token = one real byte and `max_frame_len` is used literally;
+//! * the bytes appended by `encode` are compared with `be32(n) ++ postcard(msg)` (byte fidelity),
+//! * a decoded value is compared with the encoded one through its postcard bytes.
+//!
+//! replay: each behaviour exported by TLC is run (A) by direct `encode`/`decode`/`decode_eof` calls
+//! on the real `Codec`, step by step, (B) through the real `FramedRead` over an `AsyncRead` that
+//! yields exactly the behaviour's chunks, (W) through the real `FramedWrite`.
+//! record: a seeded random driver (sender, chunking reader, connection cuts, random limits) runs the
+//! real `FramedRead`; a delegating `Decoder` wrapper logs every `decode` / `decode_eof` call the
+//! library makes, so the trace has one event per spec action.
+use std::cell::RefCell;
+use std::collections::{BTreeMap, VecDeque};
+use std::pin::Pin;
+use std::rc::Rc;
+use std::task::{Context, Poll};
+
+use futures_util::{FutureExt, SinkExt, Stream, StreamExt};
+use p2panda_core::{Body, Header, SigningKey};
+use p2panda_net::codec::{Codec, CodecError};
+use p2panda_sync::protocols::{LogSyncMessage, TopicHandshakeMessage, TopicLogSyncMessage};
+use serde::de::{DeserializeOwned, SeqAccess, Visitor};
+use serde::ser::SerializeTuple;
+use serde::{Deserialize, Serialize};
+use tokio::io::{AsyncRead, ReadBuf};
+use tokio_util::bytes::BytesMut;
+use tokio_util::codec::{Decoder, Encoder, FramedRead, FramedWrite};
+use vh_common::{Args, Outcome, Rng, TraceWriter, Value, catch, json, read_ndjson, unknown};
+
+pub fn run(args: &Args) {
+    match args.mode.as_str() {
+        "replay" => replay(args),
+        "record" => record(args),
+        _ => unknown(args),
+    }
+}
+
+// ------------------------------------------------------------------------------------------------
+// Message families: abstract (content id, postcard size) -> real message value
+
+trait Family {
+    type M: Serialize + DeserializeOwned + Clone + std::fmt::Debug + 'static;
+    const NAME: &'static str;
+    /// A message whose postcard encoding has exactly `n` bytes (None: this family has none).
+    fn make(n: usize, c: u64) -> Option<Self::M>;
+}
+
+/// `len` content bytes derived from the content id (different ids give different bytes).
+fn fill(c: u64, len: usize) -> Vec<u8> {
+    (0..len).map(|j| (c.wrapping_mul(37).wrapping_add(j as u64 * 11).wrapping_add(1)) as u8).collect()
+}
+
+/// Length L of a byte vector such that `fixed + varint(L) + L == n`, if any.
+fn vec_len_for(n: usize, fixed: usize) -> Option<usize> {
+    for varint in 1..=3usize {
+        let l = n.checked_sub(fixed + varint)?;
+        let need = if l < 128 {
+            1
+        } else if l < 16384 {
+            2
+        } else {
+            3
+        };
+        if need == varint {
+            return Some(l);
+        }
+    }
+    None
+}
+
+/// Harness-owned message type whose postcard encoding is exactly its bytes (a tuple of u8 without
+/// length prefix). The only way to put a zero-length frame through `Codec<M>` with varying sizes.
+#[derive(Clone, Debug, PartialEq)]
+struct Raw(Vec<u8>);
+
+impl Serialize for Raw {
+    fn serialize<S: serde::Serializer>(&self, s: S) -> Result<S::Ok, S::Error> {
+        let mut t = s.serialize_tuple(self.0.len())?;
+        for b in &self.0 {
+            t.serialize_element(b)?;
+        }
+        t.end()
+    }
+}
+
+impl<'de> Deserialize<'de> for Raw {
+    fn deserialize<D: serde::Deserializer<'de>>(d: D) -> Result<Self, D::Error> {
+        struct V;
+        impl<'de> Visitor<'de> for V {
+            type Value = Raw;
+            fn expecting(&self, f: &mut std::fmt::Formatter) -> std::fmt::Result {
+                f.write_str("raw bytes until the end of the frame")
+            }
+            fn visit_seq<A: SeqAccess<'de>>(self, mut seq: A) -> Result<Raw, A::Error> {
+                let mut v = Vec::new();
+                // reads until the frame's bytes are exhausted (postcard reports "unexpected end")
+                while let Ok(Some(b)) = seq.next_element::<u8>() {
+                    v.push(b);
+                }
+                Ok(Raw(v))
+            }
+        }
+        d.deserialize_tuple(usize::MAX, V)
+    }
+}
+
+struct RawFam;
+impl Family for RawFam {
+    type M = Raw;
+    const NAME: &'static str = "raw";
+    fn make(n: usize, c: u64) -> Option<Raw> {
+        Some(Raw(fill(c, n)))
+    }
+}
+
+type TopicMsg = TopicLogSyncMessage<u64, ()>;
+
+struct TopicFam;
+impl Family for TopicFam {
+    type M = TopicMsg;
+    const NAME: &'static str = "topic_log_sync";
+    fn make(n: usize, c: u64) -> Option<TopicMsg> {
+        Some(match n {
+            0 => return None,
+            1 => TopicLogSyncMessage::Close,
+            2 => TopicLogSyncMessage::Sync(LogSyncMessage::Done),
+            3 => TopicLogSyncMessage::Sync(LogSyncMessage::Have(BTreeMap::new())),
+            4 => TopicLogSyncMessage::Sync(LogSyncMessage::PreSync {
+                total_operations: (c % 128) as u32,
+                total_bytes: ((c / 128) % 128) as u32,
+            }),
+            // variant(1) + variant(1) + varint(L) + L + option tag(1)
+            _ if c % 2 == 0 => {
+                TopicLogSyncMessage::Sync(LogSyncMessage::Operation(fill(c, vec_len_for(n, 3)?), None))
+            }
+            // ... + Some(1) + varint(0) for an empty body = 5 fixed
+            _ => match vec_len_for(n, 5) {
+                Some(l) if n >= 6 => TopicLogSyncMessage::Sync(LogSyncMessage::Operation(fill(c, l), Some(vec![]))),
+                _ => TopicLogSyncMessage::Sync(LogSyncMessage::Operation(fill(c, vec_len_for(n, 3)?), None)),
+            },
+        })
+    }
+}
+
+struct LogSyncFam;
+impl Family for LogSyncFam {
+    type M = LogSyncMessage<u64>;
+    const NAME: &'static str = "log_sync";
+    fn make(n: usize, c: u64) -> Option<Self::M> {
+        Some(match n {
+            0 => return None,
+            1 => LogSyncMessage::Done,
+            2 => LogSyncMessage::Have(BTreeMap::new()),
+            3 if c % 2 == 0 => LogSyncMessage::PreSync {
+                total_operations: (c % 128) as u32,
+                total_bytes: ((c / 128) % 128) as u32,
+            },
+            _ => LogSyncMessage::Operation(fill(c, vec_len_for(n, 2)?), None),
+        })
+    }
+}
+
+struct HandshakeFam;
+impl Family for HandshakeFam {
+    type M = TopicHandshakeMessage<Vec<u8>>;
+    const NAME: &'static str = "topic_handshake";
+    fn make(n: usize, c: u64) -> Option<Self::M> {
+        Some(match n {
+            0 => return None,
+            1 => TopicHandshakeMessage::Done,
+            _ => TopicHandshakeMessage::Topic(fill(c, vec_len_for(n, 1)?)),
+        })
+    }
+}
+
+struct StringFam;
+impl Family for StringFam {
+    type M = String;
+    const NAME: &'static str = "string";
+    fn make(n: usize, c: u64) -> Option<String> {
+        let l = vec_len_for(n, 0)?;
+        Some(fill(c, l).into_iter().map(|b| (b'a' + b % 26) as char).collect())
+    }
+}
+
+// ------------------------------------------------------------------------------------------------
+// Replay
+
+fn be32(n: usize) -> [u8; 4] {
+    (n as u32).to_be_bytes()
+}
+
+/// AsyncRead that yields exactly the given chunk sizes of `data`, then EOF.
+struct ChunkReader {
+    data: Vec<u8>,
+    pos: usize,
+    chunks: VecDeque<usize>,
+    /// set when a chunk did not fit the caller's buffer (would silently change the chunking)
+    refused: bool,
+}
+
+impl AsyncRead for ChunkReader {
+    fn poll_read(mut self: Pin<&mut Self>, _cx: &mut Context<'_>, buf: &mut ReadBuf<'_>) -> Poll<std::io::Result<()>> {
+        if let Some(k) = self.chunks.pop_front() {
+            if k > buf.remaining() || self.pos + k > self.data.len() {
+                self.refused = true;
+                return Poll::Ready(Err(std::io::Error::other("harness: chunk does not fit")));
+            }
+            let (pos, end) = (self.pos, self.pos + k);
+            buf.put_slice(&self.data[pos..end]);
+            self.pos = end;
+        }
+        Poll::Ready(Ok(()))
+    }
+}
+
+#[derive(Default)]
+struct Verdict {
+    /// (signature, detail) of the first disagreement
+    bad: Option<(String, String)>,
+}
+
+impl Verdict {
+    fn fail(&mut self, sig: &str, detail: String) {
+        if self.bad.is_none() {
+            self.bad = Some((sig.to_string(), detail));
+        }
+    }
+}
+
+/// Runs one TLC behaviour on the real codec with message family `F`.
+/// Returns None if the family cannot realise one of the sizes.
+fn replay_with<F: Family>(b: &Value) -> Option<Verdict> {
+    let steps = b["steps"].as_array().expect("steps");
+    let enc_max = b["encMax"].as_u64().expect("encMax") as usize;
+    let dec_max = b["decMax"].as_u64().expect("decMax") as usize;
+    let mut v = Verdict::default();
+
+    // real message values
+    let mut msgs: BTreeMap<u64, (F::M, Vec<u8>)> = BTreeMap::new();
+    for s in steps {
+        if s["a"] == "Encode" {
+            let (c, n) = (s["c"].as_u64().unwrap(), s["n"].as_u64().unwrap() as usize);
+            let m = F::make(n, c)?;
+            let bytes = postcard::to_allocvec(&m).expect("postcard");
+            assert_eq!(bytes.len(), n, "harness: family {} size {n}", F::NAME);
+            msgs.insert(c, (m, bytes));
+        }
+    }
+
+    // ---- (A) direct calls, step by step -------------------------------------------------------
+    let mut enc = Codec::<F::M>::new().max_frame_len(enc_max);
+    let mut dec = Codec::<F::M>::new().max_frame_len(dec_max);
+    let mut dst = BytesMut::new(); // everything the sender ever wrote (never drained here)
+    let mut end: Option<usize> = None; // stream truncated at this offset (Cut)
+    let mut pos = 0usize; // bytes already handed to the receiver
+    let mut buf = BytesMut::new();
+    let mut chunks: VecDeque<usize> = VecDeque::new();
+    let mut expect_items: Vec<u64> = Vec::new();
+    let mut expect_final = "open";
+    for (i, s) in steps.iter().enumerate() {
+        match s["a"].as_str().unwrap() {
+            "Encode" => {
+                let c = s["c"].as_u64().unwrap();
+                let n = s["n"].as_u64().unwrap() as usize;
+                let ok = s["ok"].as_bool().unwrap();
+                let (m, bytes) = msgs[&c].clone();
+                let before = dst.len();
+                match catch(|| enc.encode(m, &mut dst)) {
+                    Err(p) => v.fail("encode-panics", format!("step {i}: encode panicked: {p}")),
+                    Ok(r) => {
+                        if r.is_ok() != ok {
+                            let sig = if ok { "encode-rejects-frame-within-max" } else { "encode-accepts-oversize-frame" };
+                            v.fail(sig, format!("step {i}: encode of a {n}-byte message with max {enc_max}: got {:?}, spec says ok={ok}", r.map_err(|e| e.to_string())));
+                        } else if ok {
+                            let mut want = be32(n).to_vec();
+                            want.extend_from_slice(&bytes);
+                            if dst[before..] != want[..] {
+                                v.fail("encode-bytes-differ", format!("step {i}: encode appended {:?}, expected be32(len) ++ postcard = {:?}", &dst[before..], want));
+                            }
+                        } else if dst.len() != before {
+                            v.fail("encode-wrote-on-error", format!("step {i}: rejected encode left {} bytes in the buffer", dst.len() - before));
+                        }
+                    }
+                }
+            }
+            "Close" => {}
+            "Cut" => {
+                let j = s["j"].as_u64().unwrap() as usize;
+                end = Some(pos + j);
+            }
+            "Read" => {
+                let k = s["k"].as_u64().unwrap() as usize;
+                let limit = end.unwrap_or(dst.len()).min(dst.len());
+                if pos + k > limit {
+                    v.fail("stream-shorter-than-spec", format!("step {i}: spec reads {k} bytes but only {} are in flight", limit.saturating_sub(pos)));
+                    break;
+                }
+                buf.extend_from_slice(&dst[pos..pos + k]);
+                pos += k;
+                chunks.push_back(k);
+                if buf.len() as u64 != s["buflen"].as_u64().unwrap() {
+                    v.fail("buffer-length-differs", format!("step {i}: buffer holds {} bytes after the read, spec says {}", buf.len(), s["buflen"]));
+                }
+            }
+            "Decode" => {
+                let res = s["res"].as_str().unwrap();
+                match catch(|| dec.decode(&mut buf)) {
+                    Err(p) => v.fail("decode-panics", format!("step {i}: decode panicked: {p}")),
+                    Ok(r) => {
+                        let got = match &r {
+                            Ok(None) => "none",
+                            Ok(Some(_)) => "item",
+                            Err(_) => "too_large",
+                        };
+                        if got != res {
+                            let sig = match (res, got) {
+                                ("too_large", _) => "decode-accepts-oversize-frame",
+                                (_, "too_large") => "decode-rejects-frame-within-max",
+                                ("item", "none") => "decode-misses-complete-frame",
+                                _ => "decode-yields-early",
+                            };
+                            v.fail(sig, format!("step {i}: decode returned {got} ({:?}), spec says {res}", r.as_ref().map(|_| ()).map_err(|e| e.to_string())));
+                        } else if let Ok(Some(m)) = &r {
+                            let c = s["c"].as_u64().unwrap();
+                            let got_bytes = postcard::to_allocvec(m).expect("postcard");
+                            if got_bytes != msgs[&c].1 {
+                                v.fail("decoded-message-differs", format!("step {i}: decoded {m:?}, encoded message #{c} was {:?}", msgs[&c].0));
+                            }
+                            expect_items.push(c);
+                        }
+                        if v.bad.is_none() && buf.len() as u64 != s["buflen"].as_u64().unwrap() {
+                            v.fail("buffer-length-differs", format!("step {i}: {} bytes left in the buffer after decode, spec says {}", buf.len(), s["buflen"]));
+                        }
+                        if res == "too_large" {
+                            expect_final = "error";
+                        }
+                    }
+                }
+            }
+            "Eof" => {
+                let res = s["res"].as_str().unwrap();
+                match catch(|| dec.decode_eof(&mut buf)) {
+                    Err(p) => v.fail("decode-panics", format!("step {i}: decode_eof panicked: {p}")),
+                    Ok(r) => {
+                        let got = match &r {
+                            Ok(None) => "ended",
+                            Ok(Some(_)) => "item",
+                            Err(_) => "bytes_remaining",
+                        };
+                        if got != res {
+                            v.fail("eof-verdict-differs", format!("step {i}: decode_eof gave {got}, spec says {res}"));
+                        }
+                        expect_final = if res == "ended" { "end" } else { "error" };
+                    }
+                }
+            }
+            other => panic!("unknown step {other}"),
+        }
+        if v.bad.is_some() {
+            return Some(v);
+        }
+    }
+
+    // ---- (B) the same chunks through the real FramedRead --------------------------------------
+    let limit = end.unwrap_or(dst.len()).min(dst.len());
+    let reader = ChunkReader { data: dst[..limit].to_vec(), pos: 0, chunks, refused: false };
+    let mut stream = FramedRead::new(reader, Codec::<F::M>::new().max_frame_len(dec_max));
+    let outcome = catch(|| {
+        let mut items: Vec<Vec<u8>> = Vec::new();
+        let fin;
+        loop {
+            match stream.next().now_or_never() {
+                None => {
+                    fin = "pending";
+                    break;
+                }
+                Some(None) => {
+                    fin = "end";
+                    break;
+                }
+                Some(Some(Ok(m))) => items.push(postcard::to_allocvec(&m).expect("postcard")),
+                Some(Some(Err(_))) => {
+                    fin = "error";
+                    break;
+                }
+            }
+            if items.len() > 64 {
+                fin = "runaway";
+                break;
+            }
+        }
+        (items, fin)
+    });
+    match outcome {
+        Err(p) => v.fail("decode-panics", format!("FramedRead panicked: {p}")),
+        Ok((items, fin)) => {
+            assert!(!stream.get_ref().refused, "harness: chunk larger than FramedRead's spare capacity");
+            let want: Vec<&Vec<u8>> = expect_items.iter().map(|c| &msgs[c].1).collect();
+            if items.iter().collect::<Vec<_>>() != want {
+                v.fail("framedread-sequence-differs", format!("FramedRead yielded {} item(s) {:?}, spec/direct calls yield messages {:?}", items.len(), items, expect_items));
+            } else if expect_final != "open" && fin != expect_final {
+                v.fail("framedread-end-differs", format!("FramedRead finished with {fin}, spec says {expect_final}"));
+            }
+        }
+    }
+    if v.bad.is_some() {
+        return Some(v);
+    }
+
+    // ---- (W) the encode calls through the real FramedWrite ------------------------------------
+    let mut sink = FramedWrite::new(Vec::<u8>::new(), Codec::<F::M>::new().max_frame_len(enc_max));
+    for s in steps.iter().filter(|s| s["a"] == "Encode") {
+        let c = s["c"].as_u64().unwrap();
+        let ok = s["ok"].as_bool().unwrap();
+        match catch(|| sink.send(msgs[&c].0.clone()).now_or_never()) {
+            Err(p) => v.fail("encode-panics", format!("FramedWrite::send panicked: {p}")),
+            Ok(None) => v.fail("framedwrite-pending", "send into a Vec did not complete".into()),
+            Ok(Some(r)) => {
+                if r.is_ok() != ok {
+                    let sig = if ok { "encode-rejects-frame-within-max" } else { "encode-accepts-oversize-frame" };
+                    v.fail(sig, format!("FramedWrite::send of message #{c}: ok={}, spec says ok={ok}", r.is_ok()));
+                }
+            }
+        }
+    }
+    if v.bad.is_none() && sink.get_ref()[..] != dst[..] {
+        v.fail("encode-bytes-differ", format!("FramedWrite produced {:?}, direct encode calls {:?}", sink.get_ref(), &dst[..]));
+    }
+    Some(v)
+}
+
+fn replay(args: &Args) {
+    let behaviours = read_ndjson(args.input.as_ref().expect("--in"));
+    let mut out = Outcome::new(
+        args,
+        "every TLC-exported behaviour (encode calls, chunk boundaries, cuts, decode calls) executed on the real Codec \
+         by direct encode/decode/decode_eof calls, through FramedRead over a chunk-yielding AsyncRead and through FramedWrite, \
+         once per message family that has real values of all the behaviour's sizes; \
+         non-trivial = at least one frame is split across chunks or rejected; distinct by behaviour x family",
+    );
+    for b in &behaviours {
+        let steps = b["steps"].as_array().expect("steps");
+        // non-trivial: a Decode returned none with a non-empty buffer (split frame), or any rejection
+        let nontrivial = steps.iter().any(|s| {
+            (s["a"] == "Decode" && s["res"] == "none" && s["buflen"].as_u64().unwrap_or(0) > 0)
+                || s["res"] == "too_large"
+                || s["res"] == "bytes_remaining"
+                || s["ok"] == false
+        });
+        let mut ran = 0;
+        let mut run_family = |name: &str, r: Option<Verdict>, out: &mut Outcome| {
+            let Some(v) = r else {
+                out.count(&format!("skipped:{name}"));
+                return;
+            };
+            ran += 1;
+            out.eval();
+            out.count(&format!("family:{name}"));
+            if nontrivial {
+                out.mark_distinct(format!("{name}|{}", b["steps"]));
+            }
+            if let Some((sig, detail)) = v.bad {
+                let mut case = b.clone();
+                case["family"] = json!(name);
+                out.violation("C26", &sig, format!("[{name}] {detail}"), case);
+            }
+        };
+        let only = b.get("family").and_then(|f| f.as_str()).map(|s| s.to_string());
+        let want = |n: &str| only.as_deref().is_none_or(|o| o == n);
+        if want(RawFam::NAME) {
+            run_family(RawFam::NAME, replay_with::<RawFam>(b), &mut out);
+        }
+        if want(TopicFam::NAME) {
+            run_family(TopicFam::NAME, replay_with::<TopicFam>(b), &mut out);
+        }
+        if want(LogSyncFam::NAME) {
+            run_family(LogSyncFam::NAME, replay_with::<LogSyncFam>(b), &mut out);
+        }
+        if want(HandshakeFam::NAME) {
+            run_family(HandshakeFam::NAME, replay_with::<HandshakeFam>(b), &mut out);
+        }
+        if want(StringFam::NAME) {
+            run_family(StringFam::NAME, replay_with::<StringFam>(b), &mut out);
+        }
+        assert!(ran > 0, "no family realises {b}");
+        out.sample(b.clone());
+        for s in steps {
+            if let Some(r) = s["res"].as_str() {
+                out.count(&format!("{}:{r}", s["a"].as_str().unwrap()));
+            }
+        }
+    }
+    out.write(args);
+}
+
+// ------------------------------------------------------------------------------------------------
+// Record
+
+/// Shared between the driver (sender side) and the reader handed to FramedRead.
+struct Pipe {
+    data: Vec<u8>,
+    pos: usize,
+    closed: bool,
+    rng: Rng,
+    log: Vec<Value>,
+    /// postcard bytes -> content id
+    table: BTreeMap<Vec<u8>, i64>,
+}
+
+impl Pipe {
+    fn content_id(&mut self, bytes: &[u8], insert: bool) -> i64 {
+        if let Some(c) = self.table.get(bytes) {
+            return *c;
+        }
+        if !insert {
+            return -1;
+        }
+        let c = self.table.len() as i64 + 1;
+        self.table.insert(bytes.to_vec(), c);
+        c
+    }
+}
+
+struct PipeReader(Rc<RefCell<Pipe>>);
+
+impl AsyncRead for PipeReader {
+    fn poll_read(self: Pin<&mut Self>, _cx: &mut Context<'_>, buf: &mut ReadBuf<'_>) -> Poll<std::io::Result<()>> {
+        let mut p = self.0.borrow_mut();
+        let avail = p.data.len() - p.pos;
+        if avail == 0 {
+            // closed: a 0-byte read is EOF; open: nothing to read yet (the driver polls again later)
+            return if p.closed { Poll::Ready(Ok(())) } else { Poll::Pending };
+        }
+        let cap = avail.min(buf.remaining()) as u64;
+        let k = match p.rng.below(6) {
+            0 => 1,
+            1 => cap,
+            2 | 3 => p.rng.range(1, cap.min(6)),
+            _ => p.rng.range(1, cap),
+        } as usize;
+        let (pos, end) = (p.pos, p.pos + k);
+        buf.put_slice(&p.data[pos..end]);
+        p.pos = end;
+        p.log.push(json!({"ev": "Read", "k": k}));
+        Poll::Ready(Ok(()))
+    }
+}
+
+/// Delegating decoder: every call the real FramedRead makes goes to the real `Codec` and is logged.
+struct Spy<M> {
+    inner: Codec<M>,
+    pipe: Rc<RefCell<Pipe>>,
+}
+
+impl<M: DeserializeOwned + Serialize> Decoder for Spy<M> {
+    type Item = M;
+    type Error = CodecError;
+
+    fn decode(&mut self, src: &mut BytesMut) -> Result<Option<M>, CodecError> {
+        let r = self.inner.decode(src);
+        let mut p = self.pipe.borrow_mut();
+        let ev = match &r {
+            Ok(None) => json!({"ev": "Decode", "res": "none", "c": 0, "n": 0, "buflen": src.len()}),
+            Ok(Some(m)) => {
+                let bytes = postcard::to_allocvec(m).expect("postcard");
+                let c = p.content_id(&bytes, false);
+                json!({"ev": "Decode", "res": "item", "c": c, "n": bytes.len(), "buflen": src.len()})
+            }
+            Err(_) => json!({"ev": "Decode", "res": "error", "c": 0, "n": 0, "buflen": src.len()}),
+        };
+        p.log.push(ev);
+        r
+    }
+
+    fn decode_eof(&mut self, src: &mut BytesMut) -> Result<Option<M>, CodecError> {
+        let r = self.inner.decode_eof(src);
+        let res = match &r {
+            Ok(None) => "ended",
+            Ok(Some(_)) => "item",
+            Err(_) => "error",
+        };
+        self.pipe.borrow_mut().log.push(json!({"ev": "Eof", "res": res, "buflen": src.len()}));
+        r
+    }
+}
+
+/// A real signed operation (header, optional body) with a body of `body_len` bytes.
+fn operation(key: &SigningKey, seq_num: u32, backlink: Option<p2panda_core::Hash>, body_len: usize, c: u64) -> (Header<()>, Option<Body>) {
+    let body = (body_len > 0).then(|| Body::new(&fill(c, body_len)));
+    let mut header = Header::<()> {
+        version: 1,
+        verifying_key: key.verifying_key(),
+        signature: None,
+        payload_size: body.as_ref().map(|b| b.as_bytes().len() as u32).unwrap_or(0),
+        payload_hash: body.as_ref().map(|b| b.hash()),
+        seq_num,
+        backlink,
+        extensions: (),
+    };
+    header.sign(key);
+    (header, body)
+}
+
+/// Random real wire message of the topic sync protocol (incl. live operations and sync operations
+/// carrying real CBOR header bytes).
+fn random_topic_msg(rng: &mut Rng, key: &SigningKey, log: &mut (u32, Option<p2panda_core::Hash>)) -> TopicMsg {
+    match rng.below(8) {
+        0 => TopicLogSyncMessage::Close,
+        1 => TopicLogSyncMessage::Sync(LogSyncMessage::Done),
+        2 => {
+            let mut have = BTreeMap::new();
+            for a in 0..rng.below(3) {
+                let k = SigningKey::from_bytes(&[a as u8 + 1; 32]).verifying_key();
+                let logs: BTreeMap<u64, u32> = (0..rng.below(3)).map(|l| (l, rng.below(1000) as u32)).collect();
+                have.insert(k, logs);
+            }
+            TopicLogSyncMessage::Sync(LogSyncMessage::Have(have))
+        }
+        3 => TopicLogSyncMessage::Sync(LogSyncMessage::PreSync {
+            total_operations: rng.below(100_000) as u32,
+            total_bytes: rng.below(u32::MAX as u64) as u32,
+        }),
+        4 | 5 => {
+            let body_len = *rng.pick(&[0usize, 1, 5, 40, 130]);
+            let (h, b) = operation(key, log.0, log.1, body_len, rng.next_u64());
+            *log = (log.0 + 1, Some(h.hash()));
+            TopicLogSyncMessage::Sync(LogSyncMessage::Operation(h.to_bytes(), b.map(|b| b.to_bytes())))
+        }
+        _ => {
+            let body_len = *rng.pick(&[0usize, 1, 5, 40, 130]);
+            let (h, b) = operation(key, log.0, log.1, body_len, rng.next_u64());
+            *log = (log.0 + 1, Some(h.hash()));
+            TopicLogSyncMessage::Live(h, b)
+        }
+    }
+}
+
+/// One recorded run with message type `M`: random interleaving of encode calls, close / cut and
+/// polls of the real FramedRead. Returns the number of items the stream yielded.
+fn record_run<M>(rng: &mut Rng, msgs: Vec<M>, trace: &mut TraceWriter, out: &mut Outcome, run: usize, fam: &str)
+where
+    M: Serialize + DeserializeOwned + Clone + std::fmt::Debug + 'static,
+{
+    let sizes: Vec<usize> = msgs.iter().map(|m| postcard::to_allocvec(m).expect("postcard").len()).collect();
+    let pick_max = |rng: &mut Rng| -> usize {
+        let s = if sizes.is_empty() { 4 } else { *rng.pick(&sizes) };
+        match rng.below(6) {
+            0 => s.saturating_sub(1),
+            1 => s,
+            2 => s + 1,
+            _ => 1 << 20,
+        }
+    };
+    // the receiver's limit is at most the sender's in half of the runs, so rejections on the
+    // decode side happen at all
+    let enc_max = pick_max(rng);
+    let dec_max = if rng.chance(1, 2) { pick_max(rng).min(enc_max) } else { pick_max(rng) };
+    trace.event(json!({"ev": "Reset", "run": run, "family": fam, "encMax": enc_max, "decMax": dec_max}));
+
+    let pipe = Rc::new(RefCell::new(Pipe {
+        data: Vec::new(),
+        pos: 0,
+        closed: false,
+        rng: Rng::new(rng.next_u64()),
+        log: Vec::new(),
+        table: BTreeMap::new(),
+    }));
+    let mut enc = Codec::<M>::new().max_frame_len(enc_max);
+    let mut stream = FramedRead::new(PipeReader(pipe.clone()), Spy { inner: Codec::<M>::new().max_frame_len(dec_max), pipe: pipe.clone() });
+    let waker = futures_util::task::noop_waker_ref();
+    let mut cx = Context::from_waker(waker);
+    let mut next_msg = 0usize;
+    let mut yielded = 0usize;
+    let mut rejected = false;
+    let mut done = false;
+    let mut budget = 400;
+    while !done && budget > 0 {
+        budget -= 1;
+        let closed = pipe.borrow().closed;
+        let choice = rng.below(10);
+        if !closed && next_msg < msgs.len() && choice < 3 {
+            let m = msgs[next_msg].clone();
+            next_msg += 1;
+            let bytes = postcard::to_allocvec(&m).expect("postcard");
+            let c = pipe.borrow_mut().content_id(&bytes, true);
+            let mut dst = BytesMut::new();
+            out.eval();
+            match catch(|| enc.encode(m, &mut dst)) {
+                Err(p) => {
+                    out.violation("C26", "encode-panics", p, json!({"family": fam, "n": bytes.len(), "encMax": enc_max}));
+                    return;
+                }
+                Ok(r) => {
+                    rejected |= r.is_err();
+                    let mut p = pipe.borrow_mut();
+                    p.data.extend_from_slice(&dst);
+                    p.log.push(json!({"ev": "Encode", "c": c, "n": bytes.len(), "ok": r.is_ok(), "wrote": dst.len()}));
+                }
+            }
+        } else if !closed && (choice == 3 && next_msg >= msgs.len() || choice == 3 && rng.chance(1, 4)) {
+            let mut p = pipe.borrow_mut();
+            p.closed = true;
+            p.log.push(json!({"ev": "Close"}));
+        } else if choice == 4 && rng.chance(1, 3) && pipe.borrow().data.len() > pipe.borrow().pos && !closed {
+            let mut p = pipe.borrow_mut();
+            let inflight = (p.data.len() - p.pos) as u64;
+            let j = p.rng.below(inflight) as usize;
+            let keep = p.pos + j;
+            p.data.truncate(keep);
+            p.closed = true;
+            p.log.push(json!({"ev": "Cut", "j": j}));
+            rejected = true;
+        } else {
+            out.eval();
+            match catch(|| Pin::new(&mut stream).poll_next(&mut cx)) {
+                Err(p) => {
+                    out.violation("C26", "decode-panics", p, json!({"family": fam, "events": pipe.borrow().log}));
+                    return;
+                }
+                Ok(Poll::Pending) => {}
+                Ok(Poll::Ready(None)) => done = true,
+                Ok(Poll::Ready(Some(Ok(_)))) => yielded += 1,
+                Ok(Poll::Ready(Some(Err(_)))) => {
+                    rejected = true;
+                    done = true;
+                }
+            }
+        }
+    }
+    let p = pipe.borrow();
+    let split = p.log.iter().any(|e| e["ev"] == "Decode" && e["res"] == "none" && e["buflen"].as_u64().unwrap_or(0) > 0);
+    if split || rejected {
+        out.mark_distinct(format!("run{run}"));
+    }
+    out.count_by("items_yielded", yielded as u64);
+    out.count(if done { "runs_finished" } else { "runs_left_open" });
+    for e in &p.log {
+        if let Some(r) = e["res"].as_str() {
+            out.count(&format!("{}:{r}", e["ev"].as_str().unwrap()));
+        }
+        trace.event(e.clone());
+    }
+    if run < 3 {
+        out.sample(json!({"family": fam, "encMax": enc_max, "decMax": dec_max, "events": p.log.len(), "sizes": sizes}));
+    }
+}
+
+fn record(args: &Args) {
+    let mut rng = Rng::new(args.seed);
+    let n = if args.n > 0 { args.n } else { 100 };
+    let mut trace = TraceWriter::create(args.out.as_ref().expect("--out"));
+    let mut out = Outcome::new(
+        args,
+        "seeded random runs of the real FramedRead<_, Codec<M>> (every decode/decode_eof call logged by a delegating wrapper) \
+         fed by a reader that splits the byte stream at random points, with a sender encoding real messages \
+         (topic sync messages incl. signed live operations, log sync messages, operation tuples, raw 0..n byte frames) \
+         under random max_frame_len on both sides, random close and connection cut; \
+         non-trivial = a frame was split across reads or something was rejected; distinct by run",
+    );
+    let key = SigningKey::from_bytes(&[7; 32]);
+    for run in 0..n {
+        let count = rng.range(0, 6) as usize;
+        match rng.below(4) {
+            0 => {
+                let mut log = (0u32, None);
+                let msgs: Vec<TopicMsg> = (0..count).map(|_| random_topic_msg(&mut rng, &key, &mut log)).collect();
+                record_run(&mut rng, msgs, &mut trace, &mut out, run, "topic_log_sync");
+            }
+            1 => {
+                // the payload type of the codec's own `operations_stream` test
+                let mut log: (u32, Option<p2panda_core::Hash>) = (0, None);
+                let msgs: Vec<(Header<()>, Option<Body>)> = (0..count)
+                    .map(|_| {
+                        let body_len = *rng.pick(&[0usize, 1, 14, 90]);
+                        let op = operation(&key, log.0, log.1, body_len, rng.next_u64());
+                        log = (log.0 + 1, Some(op.0.hash()));
+                        op
+                    })
+                    .collect();
+                record_run(&mut rng, msgs, &mut trace, &mut out, run, "operation_tuple");
+            }
+            2 => {
+                let msgs: Vec<LogSyncMessage<u64>> = (0..count)
+                    .map(|_| {
+                        let n = rng.range(1, 40) as usize;
+                        LogSyncFam::make(n, rng.next_u64()).expect("log sync message")
+                    })
+                    .collect();
+                record_run(&mut rng, msgs, &mut trace, &mut out, run, "log_sync");
+            }
+            _ => {
+                let msgs: Vec<Raw> = (0..count).map(|_| Raw(fill(rng.next_u64(), rng.below(9) as usize))).collect();
+                record_run(&mut rng, msgs, &mut trace, &mut out, run, "raw");
+            }
+        }
+    }
+    let (events, runs) = trace.finish();
+    out.set_trace(events, runs);
+    out.write(args);
 }
